@@ -14,9 +14,10 @@ type c18Backend struct {
 	ID       string   `json:"id"`
 	EndUser  string   `json:"end_user"`
 	Prefixes []string `json:"prefixes"`
-	Seen     string   `json:"seen"`             // last poll of its agent
-	Active   string   `json:"active,omitempty"` // last response posted for it (never decides liveness)
-	Rereg    bool     `json:"rereg,omitempty"`  // had an earlier life under the same ID (polled, answered, deleted); Seen is "never"
+	Seen     string   `json:"seen"`               // last poll of its agent
+	Active   string   `json:"active,omitempty"`   // last response posted for it (never decides liveness)
+	Rereg    bool     `json:"rereg,omitempty"`    // had an earlier life under the same ID (polled, answered, deleted); Seen is "never"
+	Repolled string   `json:"repolled,omitempty"` // "overwrite"/"delete": registered and polled, registered again seconds later (after a delete), then polled as Seen says
 }
 
 type c18Hist struct {
@@ -40,7 +41,11 @@ var (
 	c18Seen     = []string{"fresh", "4m", "6m", "1h", "never"}
 	c18Active   = []string{"", "fresh", "4m", "6m"}
 	c18Users    = []string{"u1@example.com", "u2@example.com", "u3@example.com"}
-	c18Paths    = []string{"/", "/a", "/a/", "/a/b/c", "/ab", "/b", "/c", ""}
+	c18Paths    = []string{"/", "/a", "/a/", "/a/b/c", "/ab", "/b", "/c", "", "/données/x", "/a b/c", "/50%/x", "/a/b"}
+	// how the paths are spelled on the request line where that is not simply the escaped form: "/a/b" arrives as "/a%2Fb"
+	c18WirePaths = []string{"", "", "", "", "", "", "", "", "", "", "", "/a%2Fb"}
+	// prefixes whose characters are escaped on the wire; the request path of the statement is the decoded one
+	c18PrefixesEsc = append(append([]string{}, c18Prefixes...), "/données/", "/a b/", "/50%/")
 )
 
 func c18Live(seen string) bool { return seen == "fresh" || seen == "4m" }
@@ -128,6 +133,13 @@ func c18Expect(cfg *c18Config, user, path string) (allowed map[string]bool, allo
 // c18Why names what is wrong with answer got.
 func c18Why(cfg *c18Config, user, path, got string) string {
 	if got == "!" {
+		if allowed, _, _ := c18Expect(cfg, user, path); len(allowed) > 0 {
+			for i := range cfg.Backends {
+				if allowed[cfg.Backends[i].ID] && cfg.Backends[i].Repolled != "" {
+					return "404-despite-fresh-poll:after-re-registration"
+				}
+			}
+		}
 		return "404-despite-live-match"
 	}
 	var b *c18Backend
@@ -229,8 +241,8 @@ func c18Orders(rng *rand.Rand, n, max int) [][]int {
 func c18RandPrefixes(rng *rand.Rand) []string {
 	k := 1 + rng.Intn(3)
 	var out []string
-	for _, i := range rng.Perm(len(c18Prefixes))[:k] {
-		out = append(out, c18Prefixes[i])
+	for _, i := range rng.Perm(len(c18PrefixesEsc))[:k] {
+		out = append(out, c18PrefixesEsc[i])
 	}
 	if rng.Intn(8) == 0 {
 		out = append(out, out[0]) // duplicate prefix
@@ -256,7 +268,10 @@ func c18Generate(r *core.Run) []c18Config {
 	quick := r.Quick()
 	// one backend, exhaustive: end user x single prefix x liveness
 	for _, eu := range c18EndUsers {
-		for _, p := range c18Prefixes {
+		for _, p := range c18PrefixesEsc {
+			// registered and polled, registered again within seconds (directly or after a delete), polled again: live
+			add([]c18Backend{{EndUser: eu, Prefixes: []string{p}, Seen: "fresh", Repolled: "overwrite"}}, 1)
+			add([]c18Backend{{EndUser: eu, Prefixes: []string{p}, Seen: "fresh", Repolled: "delete"}}, 1)
 			for _, s := range c18Seen {
 				for _, a := range c18Active { // last poll x last posted response, exhaustive
 					add([]c18Backend{{EndUser: eu, Prefixes: []string{p}, Seen: s, Active: a}}, 1)
@@ -295,7 +310,7 @@ func c18Generate(r *core.Run) []c18Config {
 		}
 	}
 	// random larger configurations: 2-4 backends, prefix lists of 1-3 (+duplicates)
-	nRand := r.Pick(900, 10000)
+	nRand := r.Pick(600, 10000)
 	for k := 0; k < nRand; k++ {
 		n := []int{2, 2, 3, 3, 3, 3, 4, 4}[rng.Intn(8)]
 		if quick {
@@ -312,6 +327,8 @@ func c18Generate(r *core.Run) []c18Config {
 			}
 			if rng.Intn(12) == 0 {
 				bs[i].Seen, bs[i].Active, bs[i].Rereg = "never", "fresh", true
+			} else if rng.Intn(12) == 0 {
+				bs[i].Seen, bs[i].Repolled = "fresh", []string{"overwrite", "delete"}[rng.Intn(2)]
 			}
 		}
 		add(bs, r.Pick(6, 24))
@@ -320,6 +337,15 @@ func c18Generate(r *core.Run) []c18Config {
 	nHTTP := r.Pick(12, 150)
 	for _, i := range rng.Perm(len(cfgs))[:nHTTP] {
 		cfgs[i].HTTP = true
+	}
+	// always through the client handler: one live shared backend whose prefix is spelled differently on the wire
+	for i := range cfgs {
+		if bs := cfgs[i].Backends; len(bs) == 1 && bs[0].EndUser == "allUsers" && bs[0].Seen == "fresh" && bs[0].Active == "" && bs[0].Repolled == "" && !bs[0].Rereg {
+			switch bs[0].Prefixes[0] {
+			case "/données/", "/a b/", "/50%/", "/a/", "/a/b":
+				cfgs[i].HTTP = true
+			}
+		}
 	}
 	// three-step histories through the client handler: a cacheable GET is answered by the one admissible backend,
 	// then that backend is deleted / its agent's last poll ages past the window / it is registered for another
@@ -355,11 +381,11 @@ func c18Generate(r *core.Run) []c18Config {
 
 // C18 — routing to the most specific live backend.
 func C18(r *core.Run) {
-	r.SetRule("bounded-exhaustive comparison of LookupBackend (real caching+persistent store over a fake datastore/memcache) with an independent longest-prefix specification: 1-4 backends, prefix lists (1-3, duplicates) over {/, /a, /a/, /a/b, /ab, /b, \"\"}, endUser in {u1,u2,allUsers}, last poll in {fresh,4m,6m,1h,never} x last posted response in {none,fresh,4m,6m} (dated independently; posted through the real store), backends with an earlier life under the same ID (registered, polled, answered, deleted, registered again = never polled), users {u1,u2,u3} x 8 paths, every/many insertion orders, each lookup repeated; sample through the client HTTP handler, including three-step histories (a cacheable GET answered by the one admissible backend; that backend deleted / its last poll aged past the window / registered for another end user; the same GET again); class = (#backends, candidate source user/shared/none, #candidates, longest match length, tie size, liveness of the longest class, more specific shared backend present)")
+	r.SetRule("bounded-exhaustive comparison of LookupBackend (real caching+persistent store over a fake datastore/memcache) with an independent longest-prefix specification: 1-4 backends, prefix lists (1-3, duplicates) over {/, /a, /a/, /a/b, /ab, /b, \"\", /données/, \"/a b/\", /50%/}, endUser in {u1,u2,allUsers}, last poll in {fresh,4m,6m,1h,never} x last posted response in {none,fresh,4m,6m} (dated independently; posted through the real store), backends with an earlier life under the same ID (registered, polled, answered, deleted, registered again = never polled), backends registered, polled and registered again within seconds (directly or after a delete) before their present poll, users {u1,u2,u3} x 12 paths (including non-ASCII, space, percent and one that arrives with an encoded slash, %2F; the request path is the decoded one), every/many insertion orders, each lookup repeated; sample through the client HTTP handler, including three-step histories (a cacheable GET answered by the one admissible backend; that backend deleted / its last poll aged past the window / registered for another end user; the same GET again); class = (#backends, candidate source user/shared/none, #candidates, longest match length, tie size, liveness of the longest class, more specific shared backend present)")
 	r.Assume("ties and a non-live member of the longest-prefix class admit 404 or any live member; liveness margins are >= 60 s from the 5-minute boundary; 'never seen' is the state right after registration; a backend is live iff its agent listed pending requests within the window - a posted response never counts; a request answered without being queued for any backend (GET cache replay) is admissible only where some backend is admissible for that user and path; last-seen ages are produced by ageing the time-valued properties written when the backend's pending list is read")
 	bin := r.MustBuild(e3Build(r))
 	cfgs := c18Generate(r)
-	spec := map[string]interface{}{"mode": "c18", "workers": 16, "users": c18Users, "paths": c18Paths, "reps": 2, "configs": cfgs}
+	spec := map[string]interface{}{"mode": "c18", "workers": 16, "users": c18Users, "paths": c18Paths, "wire_paths": c18WirePaths, "reps": 2, "configs": cfgs}
 	res := e3Run(r, bin, "c18", spec, time.Duration(r.Pick(240, 1500))*time.Second)
 	seenCfg := 0
 	orders, lookups, httpCases, routed, histCases, hist404 := 0, 0, 0, 0, 0, 0
